@@ -90,3 +90,13 @@ pub proof fn lemma_same_records_wf(w1: &World, w2: &World)
         assert(w2.data.dom().contains(i));
     }
 }
+
+/// C14: the file with the largest id the directory has ever contained still exists (so "max existing id + 1",
+/// which is what start-up uses, is above every id ever used)
+pub open spec fn top_exists(w: &World) -> bool {
+    exists |f: u64| #[trigger] w.data.contains_key(f) && (forall |g: u64| w.ever.contains(g) ==> g <= f)
+}
+/// called (ghost) after every unlink inside merge
+pub proof fn top_checkpoint(w: &World)
+    requires top_exists(w),   //@[C14.unlink.top_kept]
+{}
